@@ -54,11 +54,11 @@ TABLE_FACTS = {
     "C02": ["distinct"],
     "C03": ["registry", "golden"],
     "C05": ["distinct"],
-    "C07": ["registry", "wordlen", "sorted", "distinct", "first4_unique", "short_prefix", "token_safe", "unicode", "golden"],
-    "C08": ["accept_rule", "wordlen", "registry", "first4_unique"],
+    "C07": ["registry", "wordlen", "sorted", "sorted_pairs", "distinct", "first4_unique", "short_prefix", "token_safe", "unicode", "golden"],
+    "C08": ["accept_rule", "wordlen", "sorted_pairs", "registry", "first4_unique"],
     "C09": ["token_safe", "zh_overlap"],
     "C17": ["fits"],
-    "C19": ["sorted", "distinct", "accept_rule", "wordlen", "chars_agree"],
+    "C19": ["sorted", "sorted_pairs", "distinct", "accept_rule", "wordlen", "chars_agree"],
 }
 
 
@@ -239,12 +239,16 @@ def statics_engine(prop, tier, work, name):
         b = _base_sym(lhs)
         if b in extra:
             written_extra.append((fn, b))
+    for fn, sym, txt in sf["addr"]:
+        # a new static whose address escapes (array decay, &x passed to a callee) can be written through the pointer
+        if sym in extra:
+            written_extra.append((fn, sym))
     ok = not written_extra
     detail = "mutable static-lifetime objects defined in the library: %s" % ", ".join(sorted(mutable))
     if extra and not written_extra:
         detail += " (note: %s is new but never written)" % ", ".join(sorted(extra))
     if written_extra:
-        detail = "new mutable static written by library code: " + ", ".join("%s in %s" % (b, f) for f, b in sorted(set(written_extra))[:6])
+        detail = "new mutable static-lifetime object written (or its address taken) by library code: " + ", ".join("%s in %s" % (b, f) for f, b in sorted(set(written_extra))[:6])
     res.append({"name": "S.statics.set", "status": "pass" if ok else "fail", "evaluated": len(mutable) + sf["nfuncs"],
                 "detail": detail, "sample": detail[:160], "witness": {"new_static_writers": sorted(set(written_extra))[:10]}})
     bad = []
